@@ -31,7 +31,11 @@ class Timeout(Exception):
     pass
 
 
+_FIRED = {'n': 0}
+
+
 def _alarm(signum, frame):
+    _FIRED['n'] += 1
     raise Timeout()
 
 
@@ -65,17 +69,23 @@ CONFIRM_S = 90
 def _timed(fn, seconds):
     """run fn() under an alarm; returns ('ok', result) | ('exc', exception) | ('timeout', None)"""
     old = signal.signal(signal.SIGALRM, _alarm)
+    fired = _FIRED['n']
     signal.alarm(seconds)
     try:
         try:
-            return ('ok', fn())
+            res = ('ok', fn())
         finally:
             signal.alarm(0)
             signal.signal(signal.SIGALRM, old)
     except Timeout:
         return ('timeout', None)
     except BaseException as e:  # noqa - classified by the caller
-        return ('exc', e)
+        res = ('exc', e)
+    if _FIRED['n'] != fired:
+        # the watchdog fired but the code under test swallowed the interruption (hszinc's parse_grid has a bare
+        # `except:` that turns anything into a ZincParseException): still a timeout
+        return ('timeout', None)
+    return res
 
 
 def _terminating(fn, case):
